@@ -46,6 +46,8 @@ type Phase2Spec struct {
 	Build  []Call `json:"build"`
 	MaxPar int    `json:"max_par,omitempty"` // >0: SetMaxParallel(MaxPar) before the second Run
 	TickNS *int64 `json:"tick_ns,omitempty"` // a new TickerDuration for the next Run
+	// NewWriter: SetOutputBuffer with another sink before the next Run
+	NewWriter bool `json:"new_writer,omitempty"`
 }
 
 // ExtraPhases lists the phases after the first Run, in order.
@@ -831,6 +833,7 @@ func Generate(seed uint64, o GenOpts) *Scenario {
 				p2.Build = append(p2.Build, Call{Op: "add", T: r.Intn(old)}, Call{Op: "dfs"})
 			}
 
+			p2.NewWriter = sc.Buffer && r.Intn(3) == 0
 			return p2
 		}
 		sc.Phase2 = genPhase()
